@@ -10,8 +10,17 @@ argument's observable state and are excluded.  An entry point that raises is not
 itself (other properties own that), but the argument must be unchanged also then.
 "Identical result" compares bytes for files, arrays elementwise, fingerprints for returned parts.
 
-What is a theorem here: the container protocol (Props/C20.lean).  The non-mutation half is decided
-by these frame checks on generated inputs only; it is labelled so in MANIFEST/evidence.
+Unknown private attributes that appear lazily (memos) are not observable state either (gen_score.py).
+"Only operations documented as in-place change their input": after an unfolding / transposition, documented
+in-place operations applied to the RESULT must leave the ARGUMENT's fingerprint as it was (clause `alias`).
+"Calling them again ... gives an identical result" is also demanded across histories: an argument that was read from
+or re-edited while it was built (gen_score `warm`) gives the results of an equal argument without that history.
+
+What is a theorem here: the container protocol (Props/C20.lean) and the reference bookkeeping of the copies an
+unfolding makes (Props/C20Refs.lean over Model/RefHeap.lean: after copy + replace_refs no list of a copy is a list of
+an original, so appending to it cannot be seen through the original; two copies share no list either), tied to
+ReplaceRefMixin.replace_refs on random graphs of real Note/GraceNote/Slur/Tuplet objects (`refs` cases).  The rest
+of the non-mutation half is decided by frame checks on generated inputs only; it is labelled so in MANIFEST/evidence.
 """
 import copy
 import io
@@ -25,7 +34,7 @@ import gen_score as G
 
 PROPERTY = "C20"
 DRIVER = "drv_c20"
-PROPS = ["PartituraModel.Props.C20"]
+PROPS = ["PartituraModel.Props.C20", "PartituraModel.Props.C20Refs"]
 TRUSTED = [
     "Python iterator protocol (iter()/next() dispatch to __iter__/__next__), list indexing",
     "frame checks: the deep fingerprint of harness/gen_score.py is taken as 'the argument exactly as it was'",
@@ -33,11 +42,15 @@ TRUSTED = [
 PARTIAL = ["non-mutation and repeatability are established by frame checks (deep fingerprint before/after, results of "
            "repeated calls compared) on generated inputs, not by a theorem: in the Lean models every read-only operation "
            "is a pure function, which says nothing about Python object graphs"]
-RULE = ("(a) random interleavings of iter/next/len/getitem on real Score and Performance objects with 0-4 parts, "
+RULE = ("(c) random graphs of real Note/GraceNote/Slur/Tuplet objects copied with copy() + replace_refs(o_map) and compared, "
+        "attribute by attribute and list identity by list identity, with the Lean heap model; (d) in-place operations on "
+        "results, arguments with construction histories compared with twins without; "
+        "(a) random interleavings of iter/next/len/getitem on real Score and Performance objects with 0-4 parts, "
         "compared with the Lean container model; (b) generated scores/parts/performances on which every read-only entry "
         "point is called twice in a random order with a deep fingerprint (incl. object identities) before and after "
         "each call; distinct = distinct op sequence / distinct (seed, entry point order)")
-LEVEL_TEXT = ("Container protocol: Lean 4 theorem by induction over every interleaving of iter/next/len/getitem calls on "
+LEVEL_TEXT = ("Copies made by unfolding share no list with the original (Lean theorem over all object graphs, all o_maps, "
+              "all appends; tied to replace_refs differentially). Container protocol: Lean 4 theorem by induction over every interleaving of iter/next/len/getitem calls on "
               "any number of handles (each handle sees the parts in order, then StopIteration), tied to Score/Performance "
               "by differential runs. Non-mutation/repeatability: checked correspondence only (frame checks), not proved.")
 
@@ -66,6 +79,16 @@ def cases(rng, tier):
     for nparts in (2, 3):
         yield {"k": "nested", "kind": "score", "n": nparts}
         yield {"k": "nested", "kind": "performance", "n": nparts}
+    # reference bookkeeping of the copies an unfolding makes (copy + replace_refs): random object graphs
+    for _ in range(150 if tier == "quick" else 5000):
+        nn = rng.randint(1, 6)
+        links = []
+        for _ in range(rng.randint(0, 7)):
+            links.append([rng.choice(["slur", "tuplet", "tie"]), rng.randrange(nn), rng.randrange(nn)])
+        nobj = nn + sum(1 for l in links if l[0] != "tie")
+        k = rng.randint(0, nobj)
+        yield {"k": "refs", "notes": nn, "grace": [rng.random() < 0.2 for _ in range(nn)], "links": links,
+               "copy": rng.sample(range(nobj), k)}
     m = 25 if tier == "quick" else 1200
     for _ in range(m):
         c = {"k": "frame", "seed": rng.randrange(2**31), "what": rng.choice(["score", "score", "part", "performance"])}
@@ -152,6 +175,8 @@ def evaluate(d):
             ev.oracle.append("container protocol: %s with %d parts, op #%d %s returned %s, expected %s (ops=%s)" % (
                 d["kind"], d["n"], j, d["ops"][j], outs[j], ref[j], d["ops"]))
         ev.key = "proto:" + ev.requests[0]
+    elif k == "refs":
+        refs_case(d, ev)
     elif k == "nested":
         c, parts = make_container(d["kind"], d["n"])
         idx = {id(p): i for i, p in enumerate(parts)}
@@ -437,6 +462,91 @@ def frame_case(d, ev):
                                      "writing to the result would modify the argument" % (a, b, len(sl), len(na)))
                     break
     ev.info = {"raised": raised, "order": order[: len(names)]}
+
+
+def refs_case(d, ev):
+    """the copying step of ScoreVariant.create_variant_part on a random graph of real Note / GraceNote / Slur / Tuplet
+    objects: `copy(o)` for the chosen objects, then `replace_refs(o_map)` on every copy.  Observed: every reference
+    attribute (in `_ref_attrs` order) of every object afterwards — None, the object referred to, or a list with its
+    contents and whether it is one of the list objects that existed before the step (S) or a new one (F).  The Lean
+    model (Model/RefHeap.lean, `variant`) must give the same heap; the oracle appends to every list of every copy and
+    requires the originals to be unchanged."""
+    import copy as _copy
+    import partitura.score as S
+
+    objs = []
+    for i in range(d["notes"]):
+        objs.append(S.GraceNote("grace", "C", 4, id="n%d" % i) if d["grace"][i] else S.Note("C", 4, id="n%d" % i))
+    for kind, a, b in d["links"]:
+        if kind == "slur":
+            objs.append(S.Slur(objs[a], objs[b]))
+        elif kind == "tuplet":
+            objs.append(S.Tuplet(objs[a], objs[b]))
+        elif a < b and objs[a].tie_next is None and objs[b].tie_prev is None:
+            # (ties go forward and form chains: a cycle is not a score, and formatting the "reference not found"
+            # warning of replace_refs would recurse through it)
+            objs[a].tie_next = objs[b]
+            objs[b].tie_prev = objs[a]
+    n0 = len(objs)
+    # the heap before the step: a cell address for every list object, in (object, attribute) order
+    cell_of, cells, attrs_tok = {}, [], []
+    index = {id(o): i for i, o in enumerate(objs)}
+    for o in objs:
+        toks = []
+        for a in o._ref_attrs:
+            v = getattr(o, a)
+            if v is None:
+                toks.append("n")
+            elif isinstance(v, list):
+                if id(v) not in cell_of:
+                    cell_of[id(v)] = len(cells)
+                    cells.append(v)
+                toks.append("l %d" % cell_of[id(v)])
+            else:
+                toks.append("s %d" % index[id(v)])
+        attrs_tok.append("%d %s" % (len(toks), " ".join(toks)) if toks else "0")
+    cells_tok = " ".join("%d %s" % (len(c), " ".join(W.opt(W.i, index.get(id(x))) for x in c)) if c else "0" for c in cells)
+    before = [[index.get(id(x)) for x in c] for c in cells]
+    old_lists = list(cells)  # kept alive: their ids cannot be reused
+    old_ids = set(id(c) for c in old_lists)
+    chosen = [objs[i] for i in d["copy"]]
+    copies = [_copy.copy(o) for o in chosen]
+    o_map = dict(zip(chosen, copies))
+    import warnings as _w
+    with _w.catch_warnings():
+        _w.simplefilter("ignore")
+        for c in copies:
+            c.replace_refs(o_map)
+    allobjs = objs + copies
+    index = {id(o): i for i, o in enumerate(allobjs)}
+
+    def fmt(o):
+        out = []
+        for a in o._ref_attrs:
+            v = getattr(o, a)
+            if v is None:
+                out.append("-")
+            elif isinstance(v, list):
+                out.append(("lS" if id(v) in old_ids else "lF") + W.f_list(lambda x: W.f_opt(W.f_int, index.get(id(x))), v))
+            else:
+                out.append("s%d" % index[id(v)] if id(v) in index else "s?")
+        return W.f_list(lambda x: x, out)
+
+    ev.requests.append("refs %d %s %d %s %s" % (n0, " ".join(attrs_tok), len(cells), cells_tok,
+                                                W.lst(W.i, d["copy"])))
+    ev.impl.append(W.f_list(fmt, allobjs))
+    # oracle: lists of copies are new objects; in-place edits of them do not reach the originals
+    for ci, c in enumerate(copies):
+        for a in c._ref_attrs:
+            v = getattr(c, a)
+            if isinstance(v, list):
+                if id(v) in old_ids:
+                    ev.oracle.append("alias: after copy + replace_refs the copy of object %d still holds the original's %s list" % (d["copy"][ci], a))
+                v.append(None)
+    after = [[index.get(id(x)) for x in c] for c in old_lists]
+    if after != before:
+        ev.oracle.append("alias: appending to the lists of the copies changed a list of an original object: %r -> %r" % (before, after))
+    ev.key = "refs:%s" % (ev.requests[-1],)
 
 
 def edit_results(obj, d, ev, fp):
